@@ -101,6 +101,13 @@ class H8(Base7):
         _log(self, event, 'H8sub')
 
 
+class H73(H7):
+    # third level: re-declares the name again (no override): its own handler plus the one of its direct base class
+    @handler('e')
+    def hb(self, event, *a, **k):
+        _log(self, event, 'H73sub')
+
+
 class H9(Component):
     def e(self, event, *a, **k):
         _log(self, event, 'H9')
@@ -154,13 +161,14 @@ MENU = {
     'H6': (H6, [('H6', (), '*')]),
     'H7': (H7, [('H7base', E, None), ('H7sub', E, None)]),
     'H8': (H8, [('H8sub', E, None)]),
+    'H73': (H73, [('H7sub', E, None), ('H73sub', E, None)]),
     'H9': (H9, [('H9', E, None)]),
     'H14': (H14, [('H1', E, None), ('H4', (), None)]),
     'H26': (H26, [('H2', E, 'a'), ('H6', (), '*')]),
     'H1f': (H1f, [('H1f', ('e', 'f'), 'b')]),
     'HM': (HM, [('HMa', ('e', 'f'), None), ('HMz', ('f',), None)]),
 }
-QUICK_MENU = ['none', 'H1', 'H2', 'H4', 'H6', 'H7', 'H8', 'H9', 'HM']
+QUICK_MENU = ['none', 'H1', 'H2', 'H4', 'H6', 'H7', 'H8', 'H73', 'H9', 'HM']
 CHANNELS = ('*', 'a', 'b')
 # forests over labelled nodes 0..n-1 as parent vectors (None = root); one per unlabelled shape
 SHAPES = {
